@@ -175,6 +175,7 @@ var styleRules = []string{
 	"p{max-lines:1;block-ellipsis:'……';width:3em}", "div{line-clamp:2 ' (続きを読む)';width:60px}", "p{continue:discard;max-height:1.5em;block-ellipsis:'→→→ more'}", "p{max-lines:2;block-ellipsis:'[...]';font:20px/1 Ahem;width:4em}", "li{line-clamp:1}",
 	// page-based counters mixed with counters of the flow (some never declared) in generated content
 	"p::before{content:counter(chapter) '.' counter(page) ' '}", "div::after{content:counter(page) '/' counter(pages) ' ' counter(c) counter(x) counter(y)}", "li::before{content:counters(item, '.') ' p' counter(page)}",
+	"li{list-style-image:url(missing.png)}", "ol{list-style-image:url(x.png);list-style-position:inside}",
 	"table{width:100%}", "td{width:50%}", "th{vertical-align:bottom}", "tr{break-inside:avoid}", "thead{display:table-header-group}", "div{columns:2}", "p{column-span:all}", ".a{display:flex}", ".a>*{flex:1}", ".b{display:grid;grid-template-columns:1fr 1fr}",
 }
 
